@@ -1,2 +1,186 @@
--- stub: replaced by the model driver of this property
-def main : IO Unit := pure ()
+import SdcModel.Basic.Io
+import SdcModel.Discovery
+open Sdc Sdc.Discovery Sdc.Url Sdc.Hex
+
+/-! line protocol of the C14 model driver (strings `x<hex>`, `-` = None, scope strings carry the flag
+    "the real urlsplit accepted it": `1x…` / `0x…`):
+  types  = `-` | `t[<ns>:<name>,…]`          scopes = `-` | `s<matchBy|->;[<flag><uri>,…]`      xaddrs = `a[<x>,…]`
+  svc    = `<epr> <mv> <inst> <types> <scopes> <xaddrs>`
+  `rules <ldap> <uri> <uuid> <strcmp> <allow_missing_app_sequence 0|1>` | `maxlen <n>` | `reset`
+  `match <matchBy|-> <flag><a> <flag><b>`            -> `ok True|False` | `err ValueError`
+  `mfilter <svc> <types> <scopes>`                   -> `ok True|False` | `err <class>`
+  `publish <epr> <types> <scopes> <xaddrs> <inst>`   -> `ok <mv>`
+  `clear <epr>`                                      -> `ok` | `err KeyError`
+  `hello <app> <svc>` | `pm <app> <n> <svc>…` | `rm <app> <svc>` | `bye <epr>` | `probe <types> <scopes>` |
+  `resolve <epr>` | `unknown`                        -> `ok [P:<epr>:<mv> | R:<epr>:<mv>]…` | `err <class>`
+  `dg <mid> <message op …>`                          -> `skip` | answer of the message op
+  `dump` | `dumplocal`                               -> `<epr>|<mv>|<inst>|<types>|<scopes>|<xaddrs>` …            -/
+
+structure DState where
+  rules : Rules
+  maxlen : Nat
+  rejected : List Bytes      -- netlocs the real urlsplit rejected (the parameter `chk` of the model)
+  node : Node
+
+def errName : Err → String
+  | .valueError => "err ValueError"
+  | .typeError => "err TypeError"
+  | .attributeError => "err AttributeError"
+
+def splitComma (s : String) : List String := if s = "" then [] else s.splitOn ","
+
+def netlocOf (s : Bytes) : Bytes := (splitNetloc (splitScheme (cleanUrl s)).2).1
+
+/-- flagged scope string -> (rejected netloc?, bytes) -/
+def parseFlagged (s : String) : Option (Option Bytes × Bytes) :=
+  match s.toList with
+  | '1' :: cs => (ofArg (String.ofList cs)).map fun b => (none, b)
+  | '0' :: cs => (ofArg (String.ofList cs)).map fun b => (some (netlocOf b), b)
+  | _ => none
+
+def parseQName (s : String) : Option QName :=
+  match s.splitOn ":" with
+  | [a, b] => match ofArg a, ofArg b with
+    | some a, some b => some ⟨a, b⟩
+    | _, _ => none
+  | _ => none
+
+def parseTypes (s : String) : Option (Option (List QName)) :=
+  if s = "-" then some none
+  else match s.toList with
+    | 't' :: cs => ((splitComma (String.ofList cs)).mapM parseQName).map some
+    | _ => none
+
+def parseScopes (s : String) : Option (List Bytes × Option Scopes) :=
+  if s = "-" then some ([], none)
+  else match s.toList with
+    | 's' :: cs =>
+      match (String.ofList cs).splitOn ";" with
+      | [m, l] =>
+        match ofOptArg m, (splitComma l).mapM parseFlagged with
+        | some m, some items => some (items.filterMap (·.1), some ⟨items.map (·.2), m⟩)
+        | _, _ => none
+      | _ => none
+    | _ => none
+
+def parseXaddrs (s : String) : Option (List Bytes) :=
+  match s.toList with
+  | 'a' :: cs => (splitComma (String.ofList cs)).mapM ofArg
+  | _ => none
+
+def parseSvc (ws : List String) : Option (List Bytes × Service) :=
+  match ws with
+  | [e, mv, inst, t, s, a] =>
+    match ofArg e, mv.toNat?, inst.toNat?, parseTypes t, parseScopes s, parseXaddrs a with
+    | some e, some mv, some inst, some t, some (rej, s), some a => some (rej, ⟨e, t, s, a, mv, inst⟩)
+    | _, _, _, _, _, _ => none
+  | _ => none
+
+def parseSvcs : Nat → List String → Option (List Bytes × List Service)
+  | 0, [] => some ([], [])
+  | 0, _ => none
+  | n + 1, e :: mv :: inst :: t :: s :: a :: rest =>
+    match parseSvc [e, mv, inst, t, s, a], parseSvcs n rest with
+    | some (r1, sv), some (r2, svs) => some (r1 ++ r2, sv :: svs)
+    | _, _ => none
+  | _ + 1, _ => none
+
+def flag? (s : String) : Option Bool := if s = "1" then some true else if s = "0" then some false else none
+
+/-- message ops -> (rejected netlocs, message) -/
+def parseMsg (ws : List String) : Option (List Bytes × Msg) :=
+  match ws with
+  | "hello" :: app :: rest => match flag? app, parseSvc rest with
+    | some app, some (rej, s) => some (rej, .hello app s)
+    | _, _ => none
+  | ["rm", app, "-"] => (flag? app).map fun app => ([], .resolveMatches app none)
+  | "rm" :: app :: rest => match flag? app, parseSvc rest with
+    | some app, some (rej, s) => some (rej, .resolveMatches app (some s))
+    | _, _ => none
+  | "pm" :: app :: n :: rest => match flag? app, n.toNat? with
+    | some app, some n => (parseSvcs n rest).map fun (rej, ss) => (rej, .probeMatches app ss)
+    | _, _ => none
+  | ["bye", e] => (ofArg e).map fun e => ([], .bye e)
+  | ["probe", t, s] => match parseTypes t, parseScopes s with
+    | some t, some (rej, s) => some (rej, .probe t s)
+    | _, _ => none
+  | ["resolve", e] => (ofArg e).map fun e => ([], .resolve e)
+  | ["unknown"] => some ([], .unknown)
+  | _ => none
+
+def showOut : Out → String
+  | .probeMatch s => "P:" ++ toArg s.epr ++ ":" ++ toString s.mv
+  | .resolveMatch s => "R:" ++ toArg s.epr ++ ":" ++ toString s.mv
+
+def showOuts (o : List Out) : String := "ok " ++ " ".intercalate (o.map showOut)
+
+def showTypes : Option (List QName) → String
+  | none => "-"
+  | some ts => "t" ++ ",".intercalate (ts.map fun q => toArg q.ns ++ ":" ++ toArg q.name)
+
+def showScopes : Option Scopes → String
+  | none => "-"
+  | some sc => "s" ++ toOptArg sc.matchBy ++ ";" ++ ",".intercalate (sc.text.map toArg)
+
+def showSvc (s : Service) : String :=
+  "|".intercalate [toArg s.epr, toString s.mv, toString s.inst, showTypes s.types, showScopes s.scopes,
+    "a" ++ ",".intercalate (s.xaddrs.map toArg)]
+
+def mkChk (rejected : List Bytes) : Bytes → Bool := fun nl => !rejected.contains nl
+
+def initState : DState := ⟨⟨[], [], [], [], false⟩, 200, [], ⟨[], State.empty⟩⟩
+
+def stepLine (d : DState) (line : String) : DState × String :=
+  match Io.words line with
+  | ["reset"] => ({ d with rejected := [], node := ⟨[], State.empty⟩ }, "ok")
+  | ["rules", a, b, c, e, allow] => match ofArg a, ofArg b, ofArg c, ofArg e, flag? allow with
+    | some a, some b, some c, some e, some allow => ({ d with rules := ⟨a, b, c, e, allow⟩ }, "ok")
+    | _, _, _, _, _ => (d, "bad-op")
+  | ["maxlen", n] => match n.toNat? with
+    | some n => ({ d with maxlen := n }, "ok")
+    | none => (d, "bad-op")
+  | ["match", m, a, b] => match ofOptArg m, parseFlagged a, parseFlagged b with
+    | some m, some (ra, a), some (rb, b) =>
+      let rej := ra.toList ++ rb.toList ++ d.rejected
+      ({ d with rejected := rej }, match matchScope (mkChk rej) d.rules a b m with
+        | .ok v => if v then "ok True" else "ok False"
+        | .error e => errName e)
+    | _, _, _ => (d, "bad-op")
+  | "mfilter" :: e :: mv :: inst :: t :: s :: a :: [ft, fs] => match parseSvc [e, mv, inst, t, s, a], parseTypes ft, parseScopes fs with
+    | some (r1, sv), some ft, some (r2, fs) =>
+      let rej := r1 ++ r2 ++ d.rejected
+      ({ d with rejected := rej }, match matchesFilter (mkChk rej) d.rules sv ft fs with
+        | .ok v => if v then "ok True" else "ok False"
+        | .error e => errName e)
+    | _, _, _ => (d, "bad-op")
+  | ["publish", e, t, s, a, inst] => match ofArg e, parseTypes t, parseScopes s, parseXaddrs a, inst.toNat? with
+    | some e, some t, some (rej, s), some a, some inst =>
+      let st := publish d.node.st e t s a inst
+      ({ d with rejected := rej ++ d.rejected, node := { d.node with st := st } },
+        "ok " ++ toString ((st.local_.get e).map (·.mv)).get!)
+    | _, _, _, _, _ => (d, "bad-op")
+  | ["clear", e] => match ofArg e with
+    | some e => match clearService d.node.st e with
+      | some st => ({ d with node := { d.node with st := st } }, "ok")
+      | none => (d, "err KeyError")
+    | none => (d, "bad-op")
+  | ["dump"] => (d, " ".intercalate (d.node.st.remote.values.map showSvc))
+  | ["dumplocal"] => (d, " ".intercalate (d.node.st.local_.values.map showSvc))
+  | "dg" :: mid :: rest => match parseMsg rest with
+    | some (rej, m) =>
+      let rej := rej ++ d.rejected
+      let (node, res) := recvDatagram (mkChk rej) d.rules d.maxlen d.node mid m
+      ({ d with rejected := rej, node := node }, match res with
+        | none => "skip"
+        | some (.ok outs) => showOuts outs
+        | some (.error e) => errName e)
+    | none => (d, "bad-op")
+  | ws => match parseMsg ws with
+    | some (rej, m) =>
+      let rej := rej ++ d.rejected
+      match handle (mkChk rej) d.rules d.node.st m with
+      | .ok (st, outs) => ({ d with rejected := rej, node := { d.node with st := st } }, showOuts outs)
+      | .error e => ({ d with rejected := rej }, errName e)
+    | none => (d, "bad-op")
+
+def main : IO Unit := Io.lineLoop stepLine initState
